@@ -51,6 +51,14 @@ CHECKS = {
         "thread ids, known/unknown/malformed source:line targets, identifiers, expressions, garbage) is applied in every distinct canonical "
         "state up to depth 2 (thorough 3); invariant: no panic, result JSON-encodable when the error is nil, debugger lock free afterwards, "
         "released threads run on without fault, a following status answers and is JSON-encodable, StopThreads releases the thread"),
+ "C10": dict(engine="engine-A", cat="model_checking", ref="DESIGN.md 5.3, 7/C10", note=SCHED_NOTE + "; the order in which workers take events is read off the recorded schedule (acquisition order of the task queue's lock), so no linearizability search is needed; rules of equal priority may run in any order", tech="explicit-state breadth-first search over real monitor objects + exhaustive enumeration of priority assignments on the real processor + preemption-bounded schedule enumeration for the concurrent part",
+   text="(i) every priority sequence in {0,1,2}^<=5 (thorough <=6) queued for one cascade and split over two cascades while the single worker is parked: "
+        "pop order must be priority-FIFO (728 cases); (ii) 3 rules x priorities {0,1,2}^3 x failing subset x fail-on-first-error on/off x 'failing rule "
+        "added an event first' = 864 cases through ProcessEvent: ascending priority, nothing after the first failure when the flag is set, added events "
+        "still processed, exact error report; (iii) breadth-first search over monitor operation histories {new child(p), activate, skip, finish} on "
+        "real monitors (up to 4-5 monitors, depth 8-10, canonical state = multiset of (priority, status)): HighestPriority == lowest number among "
+        "activated unfinished monitors else -1; (iv) 5 concurrent drivers (2-3 workers, mixed priorities) under every schedule with <= 1-2 preemptions: "
+        "no event is taken while a more urgent or older-equal event of its cascade is queued"),
 }
 
 ENGINES = [
